@@ -111,6 +111,8 @@ class Pool(object):
             self.by_text[self.text(f.simplify())] = fid
             self.by_text[self.text(m.Not(f).simplify())] = "N" + fid
         self.term_by_text = {self.text(t): tid for tid, t in self.terms.items()}
+        for n, d in self.symbols.items():
+            self.term_by_text.setdefault(self.text(d["node"]), n)
 
     def text(self, node):
         """canonical rendering of the SMT-LIB text pySMT prints for `node` (daggified, as the wrapper sends it)"""
@@ -144,9 +146,9 @@ class Pool(object):
         """(id, FNode) of the formula an op finally asserts"""
         kind, fid = op[0], op[1]
         f = self.formulas[fid][0]
-        if kind == "is_valid":
-            return "N" + fid, self.not_(f).simplify()
-        return fid, f.simplify()
+        node = (self.not_(f) if kind == "is_valid" else f).simplify()
+        # formulas with the same simplified form are the same thing on the wire
+        return self.by_text[self.text(node)], node
 
 
 def pool():
